@@ -106,7 +106,28 @@ def map_history(seed, k, nops):
     from dali.device import pushbutton, occupancy, light
     mods = {1: pushbutton, 3: occupancy, 4: light}
     rng = random.Random(seed * 7919 + k)
-    m = DeviceInstanceTypeMapper()
+
+    class ViaGetType(DeviceInstanceTypeMapper):
+        """A map that answers only through the documented lookup call: its entries live outside the base class's table."""
+        def __init__(self):
+            super().__init__()
+            self._own = {}
+
+        def add_type(self, **kw):
+            super().add_type(**kw)
+            self._own.update(self.mapping)
+            self.mapping.clear()
+
+        def clear(self):
+            super().clear()
+            self._own = {}
+
+        def get_type(self, *, short_address, instance_number):
+            s = short_address.address if isinstance(short_address, DeviceShort) else short_address
+            n = instance_number.value if isinstance(instance_number, InstanceNumber) else instance_number
+            return self._own.get((s, n), None)
+
+    m = ViaGetType() if k % 3 == 2 else DeviceInstanceTypeMapper()
     shorts = [rng.randrange(64) for _ in range(3)]
     inums = [rng.randrange(32) for _ in range(3)]
     evs = []
